@@ -57,8 +57,12 @@ func (st *State) createMethod(fr *Frame, in ssa.CallInstruction, callee *ssa.Fun
 		st.stmt()
 		st.e.note(st.u.name, "intrinsic", "ent "+t.Entity+" create."+name)
 		st.entFail(results, k)
-		st.entConstraint(t, results, func(st *State, x *Term) *Term { return Eq(x, x) }, k)
-		id := st.insertRow(t, func(col string) (*Term, *Term) { return st.cbVal(st.heap, t, r, col) })
+		get := func(st *State) func(col string) (*Term, *Term) {
+			return func(col string) (*Term, *Term) { return st.cbVal(st.heap, t, r, col) }
+		}
+		st.entConstraint(t, results, get, k)
+		st.hookRejectInsert(t, results, get, k)
+		id := st.insertRow(t, get(st))
 		var res SVal
 		if results.Len() == 2 {
 			res = st.mkEntity(t, &entBuilder{Table: t}, id)
@@ -93,15 +97,16 @@ func (st *State) createMethod(fr *Frame, in ssa.CallInstruction, callee *ssa.Fun
 			}
 			st.unsupported("ent: %s on unknown field of %s", name, t.Entity)
 		}
-		st.cbSet(t, r, col.Name, st.colValueOf(col, args[1]))
+		st.cbSet(t, r, col.Name, st.setterValue(col, callee, args[1]))
 		k(st, r)
 	default:
 		st.unsupported("ent: %sCreate.%s is not modelled", t.Entity, name)
 	}
 }
 
-// entConstraint forks the path in which a unique index rejects the insert.
-func (st *State) entConstraint(t *entTable, results *types.Tuple, _ func(st *State, x *Term) *Term, k func(st *State, res SVal)) {
+// entConstraint forks the path in which the unique (name, live) index rejects the insert: that happens
+// exactly when another row with the same name and a non-NULL equal live marker exists.
+func (st *State) entConstraint(t *entTable, results *types.Tuple, get func(st *State) func(col string) (*Term, *Term), k func(st *State, res SVal)) {
 	if t.ByName["name"] == nil {
 		return
 	}
@@ -109,7 +114,42 @@ func (st *State) entConstraint(t *entTable, results *types.Tuple, _ func(st *Sta
 	e := st2.newErr("dup")
 	st2.assume(st2.errIs("constraint", e))
 	st2.assume(Not(st2.errIs("notfound", e)))
+	if t.ByName["live"] != nil {
+		g := get(st2)
+		nameV, _ := g("name")
+		liveV, liveSet := g("live")
+		newLive := Ite(liveSet, liveV, TTrue) // schema default true
+		x := st2.fresh("clash", SInt)
+		st2.assume(And(st2.rowLive(st2.heap, t, x), Not(st2.colNull(st2.heap, t, "live", x)), Eq(st2.colGet(st2.heap, t, "live", x), newLive), Eq(st2.colGet(st2.heap, t, "name", x), nameV)))
+	}
 	st2.tr("constraint")
+	k(st2, st2.resultWithErr(results, e, nil))
+}
+
+// liveInvariant: the row-level rule enforced by the schema hook checkLiveOrDeleted.
+func (st *State) liveInvariantOfNew(t *entTable, g func(col string) (*Term, *Term)) *Term {
+	liveV, liveSet := g("live")
+	_, delSet := g("deleted_at")
+	live := Ite(liveSet, liveV, TTrue)
+	return Eq(live, Not(delSet))
+}
+
+// hookRejectInsert forks the path in which the mutation hook refuses the new row.
+func (st *State) hookRejectInsert(t *entTable, results *types.Tuple, get func(st *State) func(col string) (*Term, *Term), k func(st *State, res SVal)) {
+	if t.ByName["live"] == nil || t.ByName["deleted_at"] == nil {
+		return
+	}
+	st2 := st.clone()
+	inv := st2.liveInvariantOfNew(t, get(st2))
+	if isTrue(inv) {
+		return
+	}
+	st2.assume(Not(inv))
+	e := st2.newErr("hookerr")
+	st2.assume(st2.errIs("validation", e))
+	st2.assume(Not(st2.errIs("notfound", e)))
+	st2.assume(Not(st2.errIs("constraint", e)))
+	st2.tr("hook-rejects")
 	k(st2, st2.resultWithErr(results, e, nil))
 }
 
